@@ -11,6 +11,7 @@ import (
 )
 
 type entry struct {
+	seen   int64
 	gen    int
 	lc     uint64
 	status cluster.MemberStatus
@@ -31,6 +32,8 @@ type memHist struct {
 	suspectFF      bool   // the Suspect status was set in the fault-free phase
 	suspectHow     string // "fd" (this node's failure detector) or "learned" (copied from a peer's view)
 	everPresent    bool
+	learnedAt      int64 // when M last appeared in X's view
+	learnedHow     string
 }
 
 type obs struct {
@@ -75,7 +78,7 @@ func viewEntries(n *SNode) map[string]entry {
 	out := map[string]entry{}
 	for id, m := range n.actor.XVView().Members {
 		if m != nil {
-			out[id] = entry{m.Generation, m.LogicalClock, m.Status, m.Timestamp, m.Address}
+			out[id] = entry{m.LastSeen, m.Generation, m.LogicalClock, m.Status, m.Timestamp, m.Address}
 		}
 	}
 	return out
@@ -196,10 +199,15 @@ func (h *History) afterStep(kind stepKind, addr string) {
 					}
 				}
 				mh.everPresent = true
+				mh.learnedAt, mh.learnedHow = s.now, kindName(kind)
 				if is.status == cluster.MemberStatusSuspect {
 					mh.suspectAt, mh.suspectFF, mh.suspectHow = s.now, ff, "learned"
 				}
 			case had && has:
+				if was.gen != is.gen || was.lc != is.lc {
+					// the merge replaced the entry by a newer incarnation: a clone of the sender's copy, LastSeen included
+					mh.learnedAt, mh.learnedHow = s.now, kindName(kind)+" step that adopted a newer incarnation"
+				}
 				if was.status != cluster.MemberStatusSuspect && is.status == cluster.MemberStatusSuspect {
 					how := "learned"
 					if kind == kFd {
@@ -247,7 +255,26 @@ func (h *History) fdOnLive(name string, n *SNode, o *obs, subject *SNode, was en
 			s.now, n.cfg.Addr, subject.cfg.ID, subject.cfg.Addr, T, lastS, h.ffSince))
 		return
 	}
+	for id, e := range o.snap {
+		if id != subject.cfg.ID && e.addr == subject.cfg.Addr {
+			// two members share the address (the process was restarted under a fresh NodeID, the default): MemberByAddress
+			// refreshes whichever entry the map iteration yields first
+			h.causes["fd-on-member-sharing-address-with-predecessor"] = true
+			h.hit(name, fmt.Sprintf("fd-on-member-sharing-address-with-predecessor: at t=%d the failure detector of %s hit the running node %s (%s) although a GossipMessage from it was delivered at t=%d (timeout %d): the view also lists %s at the same address (its predecessor, restarted under a fresh NodeID) and handleGossip refreshes LastSeen of whichever of the two MemberByAddress finds first",
+				s.now, n.cfg.Addr, subject.cfg.ID, subject.cfg.Addr, last, T, id))
+			return
+		}
+	}
+	if mh := o.mem[subject.cfg.ID]; mh != nil && heardEver && mh.learnedAt >= last {
+		// the entry was (re)learned through a merge at or after the last packet from the node: handleGossip refreshes
+		// LastSeen only for a sender that is already a member, and the merged-in entry carries the sender's own copy
+		h.causes["fd-on-relearned-member-with-foreign-lastseen"] = true
+		h.hit(name, fmt.Sprintf("fd-on-relearned-member-with-foreign-lastseen: at t=%d the failure detector of %s hit the running node %s (%s) although a GossipMessage from it was delivered at t=%d (timeout %d): the member was (re)learned through a %s at t=%d and its entry carries the LastSeen of the sender's copy, not the time of that delivery",
+			s.now, n.cfg.Addr, subject.cfg.ID, subject.cfg.Addr, last, T, mh.learnedHow, mh.learnedAt))
+		return
+	}
 	h.causes["unexplained"] = true
-	h.hit(name, fmt.Sprintf("unexplained: at t=%d the failure detector of %s hit the running node %s (%s) although a GossipMessage from it was delivered at t=%d (timeout %d)",
-		s.now, n.cfg.Addr, subject.cfg.ID, subject.cfg.Addr, last, T))
+	mh := o.mem[subject.cfg.ID]
+	h.hit(name, fmt.Sprintf("unexplained: at t=%d the failure detector of %s hit the running node %s (%s) although a GossipMessage from it was delivered at t=%d (timeout %d, confirm %d); entry before the tick: LastSeen %d status %s incarnation (%d,%d); learned at t=%d by a %s",
+		s.now, n.cfg.Addr, subject.cfg.ID, subject.cfg.Addr, last, T, int64(n.cfg.Confirm), was.seen, was.status.String(), was.gen, was.lc, mh.learnedAt, mh.learnedHow))
 }
